@@ -21,7 +21,7 @@ import (
 // events is executed on one cluster; a model says which attempts must succeed.
 
 type c12Op struct {
-	Kind  int // 9 sign cancelled while the signer of one node is still being prepared, 10 keygen with two extra KeyGen calls on one node while it runs; 0 keygen complete, 1 keygen one missing, 2 sign complete, 3 sign one missing, 4 sign cancelled midway, 5 two signs on different topics concurrently, 6 second sign on the same topic while the first runs, 7 replay recorded frames, 8 foreign frames (configured outsider / unknown node), 11 sign complete / 12 keygen complete while copies of the session's own live frames arrive under the source of the configured member that is not a participant (and of an unknown node)
+	Kind  int // 9 sign cancelled while the signer of one node is still being prepared, 10 keygen with two extra KeyGen calls on one node while it runs; 0 keygen complete, 1 keygen one missing, 2 sign complete, 3 sign one missing, 4 sign cancelled midway, 5 two signs on different topics concurrently, 6 second sign on the same topic while the first runs, 7 replay recorded frames, 8 foreign frames (configured outsider / unknown node), 11 sign complete / 13 keygen / 14 sign in which one node's context ends inside the factory / Init / SetShareData / run entry of its protocol instance, 12 keygen complete while copies of the session's own live frames arrive under the source of the configured member that is not a participant (and of an unknown node)
 	Topic int
 	Who   int // missing party / cancelling party / duplicate caller (index)
 	At    int // deliveries before the cancellation / before the duplicate call
@@ -44,7 +44,7 @@ func genC12(t *rapid.T) c12Case {
 	n := rapid.IntRange(2, 8).Draw(t, "nops")
 	for i := 0; i < n; i++ {
 		c.Ops = append(c.Ops, c12Op{
-			Kind:  rapid.SampledFrom([]int{0, 1, 2, 2, 2, 3, 3, 4, 4, 5, 6, 7, 8, 9, 9, 10, 11, 11, 12}).Draw(t, "kind"),
+			Kind:  rapid.SampledFrom([]int{0, 1, 2, 2, 2, 3, 3, 4, 4, 5, 6, 7, 8, 9, 9, 10, 11, 11, 12, 13, 13, 14}).Draw(t, "kind"),
 			Topic: rapid.IntRange(0, 1).Draw(t, "topic"),
 			Who:   rapid.IntRange(0, 3).Draw(t, "who"),
 			At:    rapid.IntRange(0, 40).Draw(t, "at"),
@@ -89,9 +89,30 @@ func runC12(c c12Case) *vh.Outcome {
 		instance := map[uint16]int{}
 		var gateNode uint16 // node whose next signer instance parks in its first SetShareData
 		var gate chan struct{}
+		// hookNode/hookPoint/hookFire: the next protocol instance of hookNode calls hookFire when it reaches hookPoint
+		// ("factory" | "init" | "setshare" | "run") - a cancellation in the middle of the orchestrator's set-up
+		var hookNode uint16
+		var hookPoint string
+		var hookFire func()
 		mk := func(node uint16, kind string) *backends.Rec {
 			instance[node]++
 			r := &backends.Rec{Node: node, Tape: tape, Script: backends.DefaultScript(), Session: fmt.Sprintf("%s#%d@%d", kind, instance[node], node)}
+			if hookFire != nil && node == hookNode {
+				fire := hookFire
+				point := hookPoint
+				hookFire = nil
+				if point == "factory" {
+					fire()
+				} else {
+					done := false
+					r.Hook = func(p string) {
+						if p == point && !done {
+							done = true
+							fire()
+						}
+					}
+				}
+			}
 			if kind == "sign" && gate != nil && node == gateNode {
 				r.Gate = gate
 				gateNode = 0
@@ -499,6 +520,43 @@ func runC12(c c12Case) *vh.Outcome {
 					return
 				}
 				usedTopics[key] = "ok"
+			case 13, 14: // key generation (13) / signing (14) in which one node's context ends in the middle of the orchestrator's
+				// set-up of its protocol instance; the attempt fails, the next attempt on the topic must be admitted and succeed
+				isKG := op.Kind == 13
+				key := topic
+				opName := "sign"
+				if isKG {
+					key, opName = "DKG", "keygen"
+				}
+				_, used := usedTopics[key]
+				saf := false
+				if c.Silent && used && avoidL20 {
+					saf = true
+					info.StartAllFirst++
+				}
+				ctxs, cns := ctxFor(parts)
+				calls := mkCalls(opName, key, parts, ctxs)
+				victim := parts[op.Who%n]
+				hookNode = victim
+				hookPoint = []string{"factory", "init", "run", "setshare"}[op.Arg%4]
+				if isKG && hookPoint == "setshare" {
+					hookPoint = "factory"
+				}
+				hookFire = cns[victim]
+				info.Attempts = append(info.Attempts, fmt.Sprintf("%s with the context of node %d ending at %s of its instance", opName, victim, hookPoint))
+				info.Retries++
+				ok := runAttempt(calls, saf, nil)
+				hookFire = nil
+				if !ok {
+					return
+				}
+				for _, cn := range cns {
+					cn()
+				}
+				if !drain() {
+					return
+				}
+				usedTopics[key] = "failed"
 			case 7: // replay recorded frames of earlier sessions (late / duplicated traffic)
 				if len(recorded) == 0 {
 					continue
